@@ -388,12 +388,33 @@ fn replay(path: &std::path::Path, mut report: Report) -> i32 {
     };
     let c = match compile(wat_text, fl, vec![(export.to_string(), args.len())], &imports) {
         Ok(c) => c,
+        Err(e) if e.starts_with("invalid-output:") => {
+            println!("still violates: {e}");
+            let mut shard = Shard::new(0, "C46", report.args.tier, std::time::Instant::now() + Duration::from_secs(60));
+            shard.eval();
+            shard.nontrivial(&1);
+            shard.nontrivial(&2);
+            shard.violation("instrumented:output-is-not-valid-wasm", json!({"error": e}));
+            report.merge(shard);
+            report.spec.floors.clear();
+            return report.finish();
+        }
         Err(e) => {
             println!("module no longer compiles: {e}");
             return 2;
         }
     };
     let mut shard = Shard::new(0, "C46", report.args.tier, std::time::Instant::now() + Duration::from_secs(60));
+    if doc["signature"].as_str() == Some("instrumented:output-is-not-valid-wasm") {
+        // compile() above re-validated the instrumented output: it is valid now
+        println!("instrumented output of the recorded module is valid WebAssembly now: 0 violation(s)");
+        shard.eval();
+        shard.nontrivial(&1);
+        shard.nontrivial(&2);
+        report.merge(shard);
+        report.spec.floors.clear();
+        return report.finish();
+    }
     let engine = WasmiEngine::default();
     let a = eval_call(&c, &engine, export, &args, &imports, &mut shard, true);
     println!("replayed export {export} args {args:?}: instrumented = {:?}", a.as_ref().map(|a| (result_class(&a.out), a.units, a.gas_calls)));
